@@ -131,6 +131,9 @@ func runOne(chk props.Checker, id string, cfg load.Config, tier string) (res *ch
 	}
 	res = check.NewResult(id)
 	chk(&props.Env{P: p, R: res, Tier: tier})
+	if len(p.AliasNotes) > 0 {
+		res.Extra["anchor_aliases"] = p.AliasNotes
+	}
 	return res, nil
 }
 
